@@ -157,8 +157,7 @@ static void norm_items(const std::vector<cif::Item>& in, std::vector<cif::Item>&
 static cif::Document normalise(const cif::Document& d, const cif::WriteOptions& o) {
   cif::Document r;
   for (const cif::Block& b : d.blocks) {
-    // a block read from global_ has an empty name; it is written as bare "data_", read back as " "
-    r.blocks.emplace_back(b.name.empty() ? std::string(" ") : b.name);
+    r.blocks.emplace_back(b.name);
     norm_items(b.items, r.blocks.back().items, o);
   }
   return r;
